@@ -1008,7 +1008,9 @@ class SyncObj(object):
                     self.__onBecomeLeader()
 
         if self.__raftState == _RAFT_STATE.LEADER:
-            if message['type'] == 'next_node_idx':
+            # An answer to an append_entries of an earlier leadership term says nothing about the entries
+            # that are at those indices now: it is ignored.
+            if message['type'] == 'next_node_idx' and message.get('term', self.__raftCurrentTerm) == self.__raftCurrentTerm:
                 reset = message['reset']
                 nextNodeIdx = message['next_node_idx']
                 success = message['success']
@@ -1045,6 +1047,7 @@ class SyncObj(object):
             'next_node_idx': nextNodeIdx,
             'reset': reset,
             'success': success,
+            'term': self.__raftCurrentTerm,
         })
 
     def __generateRaftTimeout(self):
